@@ -115,6 +115,17 @@ def check_C09(ctx):
                     stream = pre + inst + post
                     src = 'DEFINE PRIO 2 %s AS %s END DEFINE\n%s' % (' '.join(pat), ' '.join(body), ' '.join(stream))
                     cases.append((fam, stream, src))
+    # operators of the same SHAPE (`<V> op <V>`) in different priority bins, with shared operands, multi-token left operands and
+    # parentheses whose removal completes a use far to the left
+    ARITH = [(10, ['<V>', '+', '<V>'], ['RUN', 'add', 'WITH', '$0', ',', '$1', 'END']), (20, ['<V>', '*', '<V>'], ['RUN', 'mul', 'WITH', '$0', ',', '$1', 'END']),
+             (5, ['(', '<V>', ')'], ['$0'])]
+    for fam in (ARITH, [ARITH[1], ARITH[0], ARITH[2]], ARITH[:2], [(20, ARITH[0][1], ARITH[0][2]), (10, ARITH[1][1], ARITH[1][2])]):
+        for stream in (['r', ':=', 'a', '+', 'b', '*', 'c'], ['r', ':=', 'a', '*', 'b', '+', 'c', '*', 'a'], ['r', ':=', 'b', '*', 'c', '+', 'a'],
+                       ['r', ':=', 'RUN', 'twice', 'WITH', '3', 'END', '+', '(', '4', '*', '5', ')'], ['r', ':=', '(', 'a', '+', 'b', ')', '*', 'c'],
+                       ['r', ':=', 'RUN', 'f', 'WITH', 'RUN', 'g', 'WITH', '1', ',', '2', 'END', 'END', '*', '(', '(', 'a', ')', ')', '+', '1'],
+                       ['r', ':=', 'a', '+', 'b', '+', 'c', '*', 'd', '*', 'e']):
+            src = '\n'.join('DEFINE PRIO %d %s AS %s END DEFINE' % (pr, ' '.join(pat), ' '.join(body)) for (pr, pat, body) in fam) + '\n' + ' '.join(stream)
+            cases.append((fam, stream, src))
     # layered macros: the inner macro's keyword / punctuation occurs NOWHERE in the source outside the definitions — it reaches
     # the stream only through the outer macro's body
     for K in ['(', ')', ':=', '=', ';', ',', ':', 'GOTO', 'IF', 'THEN', 'LOOP', 'DO', 'WHILE', 'STOP', 'RUN', 'WITH', 'END', '+', '7']:
